@@ -320,6 +320,30 @@ func c15Run(i int, s c15Stream, out *childOut) {
 			if readErr == nil || errors.Is(readErr, context.Canceled) || !strings.Contains(readErr.Error(), s.FaultLine) {
 				out.violation(sig+":error-does-not-identify-line", fmt.Sprintf("Read returned %v for malformed line %q", readErr, s.FaultLine), wit)
 			}
+			// The lines received before the offending one were parsed: each of them
+			// contributes to an event handed to the correlator, the kernel event
+			// that was still being assembled when the processor stopped included.
+			before := map[string]bool{}
+			for _, l := range s.Lines[:s.FaultPos] {
+				before[l] = true
+			}
+			expected := 0
+			if s.FaultPos > 0 {
+				expected = 1 // the LOGIN record
+			}
+			for _, g := range s.Groups {
+				for _, l := range g.Lines {
+					if before[l] {
+						expected++
+						break
+					}
+				}
+			}
+			if got := rec.Len(); got < expected {
+				out.violation(sig+":received-records-never-reached-the-correlator", fmt.Sprintf("%d kernel events had records before the malformed line at position %d, only %d events were emitted by the time Read returned", expected, s.FaultPos, got), wit)
+			} else {
+				out.add("events_before_a_malformed_line_accounted_for", expected)
+			}
 		case "write-fail":
 			if readErr == nil || !errors.Is(readErr, vlib.ErrInjected) {
 				out.violation(sig+":error-does-not-wrap-cause", fmt.Sprintf("Read returned %v after the %d-th event write failed", readErr, s.FailAt), wit)
